@@ -7,7 +7,7 @@
    is_Cderive f x l : the real and imaginary parts of f : R -> C have derivatives
    Re l, Im l at x (Coquelicot is_derive);  grad_ok g : every entry of the model of
    g.get_grad(params)[k] is the derivative of the same entry of get_unitary w.r.t. params[k]. *)
-From Coq Require Import Reals QArith ZArith List Arith.
+From Coq Require Import Reals QArith ZArith List Arith Permutation.
 From Coquelicot Require Import Coquelicot.
 From BQ Require Import lib.Expr lib.ExprThm gate.Matrix gate.MatrixThm gate.Composed gate.GateLib gate.GateThm gate.ComposedThm.
 From BQ Require Import gate.EqHash gate.EqHashThm gate.FrozenThm.
@@ -245,6 +245,20 @@ Theorem C18_composed_frozen_free : forall (A : Type) (d : A) n frozen params,
   frozen_valid n frozen = true -> length params = n - length frozen ->
   map (fun u => nth u (full_params frozen params) d) (unfixed_idxs n frozen) = params.
 Proof. exact full_params_free. Qed.
+(* get_full_params is SUBSTITUTION BY INDEX (position p = the frozen value of key p, otherwise
+   the free parameter number p - #{frozen keys < p}); [by_index] neither sorts nor depends on the
+   order of the list of (key, value) pairs ... *)
+Theorem C18_composed_frozen_by_index : forall (A : Type) (d : A) n frozen params,
+  frozen_valid n frozen = true -> length params = n - length frozen ->
+  full_params frozen params = by_index A d n frozen params.
+Proof. exact full_params_by_index. Qed.
+(* ... hence for any two insertion orders of the same finite map (the python dict's
+   iteration order) the full parameter vector - and so the gate - is the same.  The model
+   [full_params] follows the code's loop literally: sorted(keys), list.insert one by one. *)
+Theorem C18_composed_frozen_order_irrelevant : forall (A : Type) (d : A) n (frozen frozen' : list (nat * A)) params,
+  frozen_valid n frozen = true -> frozen_valid n frozen' = true -> length params = n - length frozen ->
+  Permutation frozen frozen' -> full_params frozen params = full_params frozen' params.
+Proof. exact full_params_order_irrelevant. Qed.
 (* frozen = substitution, gradient rows dropped consistently: the substitution puts the
    constant q at a frozen index, the new parameter t at the t-th unfrozen index, and the
    derivative w.r.t. the new parameter t is the substituted partial derivative w.r.t. that
@@ -330,7 +344,8 @@ Example C18_nonvacuous_embedded :
 Proof. split; reflexivity. Qed.
 Example C18_nonvacuous_frozen :
   frozen_valid 3 [(2, 7); (0, 5)] = true /\
-  full_params [(2, 7); (0, 5)] [9] = [5; 9; 7] /\ unfixed_idxs 3 [(2, 7); (0, 5)] = [1].
+  full_params [(2, 7); (0, 5)] [9] = [5; 9; 7] /\ unfixed_idxs 3 [(2, 7); (0, 5)] = [1] /\
+  full_params [(0, 5); (2, 7)] [9] = [5; 9; 7] /\ by_index nat 0 3 [(2, 7); (0, 5)] [9] = [5; 9; 7].
 Proof. repeat split. Qed.
 Example C18_nonvacuous_eq_hash :
   inv cinit /\ cacheable h_pos = true /\ h_pos <> h_kw.
